@@ -85,7 +85,7 @@ def main():
     na = [{"property_id": k, "reason": v} for k, v in sorted({**NA, **pending}.items()) if k not in claimed]
     m = {
         "version": 1,
-        "setup_cmd": "cd /verif/sim && CARGO_NET_OFFLINE=true cargo build --release --offline",
+        "setup_cmd": "cd /verif/sim && CARGO_NET_OFFLINE=true cargo build --release --offline && CARGO_NET_OFFLINE=true cargo build --profile nochecks --offline",
         "hooks": {
             "guard": "verif-hooks",
             "enable": "cargo feature: /verif/sim/Cargo.toml depends on http-serve = { path = \"/repo\", features = [\"verif-hooks\"] }",
